@@ -24,8 +24,15 @@ def key(f):
 
 def task(W, payload):
     r = random.Random(f"C04:{payload['seed']}:{payload['index']}")
-    prog = Gen(r, Opts(max_strats=3, force_strat=True, max_flows=7, allow_requests=False, allow_computed=False, allow_mixing=False,
-                       allow_inf_adjust=False)).program()
+    if payload["index"] % 3 == 2:
+        # absolute flows under partial / strain stratifications with adjustments, and adjustment chains across stratifications
+        prog = Gen(r, Opts(max_strats=3, force_strat=True, max_flows=6, allow_requests=False, allow_computed=False, allow_mixing=False,
+                           allow_inf_adjust=False, chain_adjust_bias=0.5,
+                           kinds=["transition", "death", "universal_death", "crude_birth", "repl_birth", "import", "absolute", "absolute", "absolute", "absolute",
+                                  "infection"])).program()
+    else:
+        prog = Gen(r, Opts(max_strats=3, force_strat=True, max_flows=7, allow_requests=False, allow_computed=False, allow_mixing=False,
+                           allow_inf_adjust=False)).program()
     S = fresh_session(W)
     out = mk_out(prog)
     if not S.build(prog["build"], dump_each=False):
